@@ -168,6 +168,15 @@ impl PongService {
         self.service.verif_local_enr()
     }
 
+    /// Emits `n` `Discovered` events through `Service::send_event` without reading the stream (an
+    /// application that is busy while a lookup reports its peers).
+    pub fn burst_of_events(&mut self, n: usize) {
+        let enr = self.service.verif_local_enr();
+        for _ in 0..n {
+            self.service.verif_send_event(Event::Discovered(enr.clone()));
+        }
+    }
+
     /// The `SocketUpdated` events emitted since the last call (other events are counted).
     pub fn socket_events(&mut self) -> (Vec<SocketAddr>, usize) {
         let mut out = vec![];
